@@ -152,6 +152,32 @@ def apply_pass(proto_bytes, pass_name, seed_outputs, seed_inputs, want_c14=True,
             for v in sub.outputs:
                 if not v.name:
                     c14.append(("graph_output_lost_its_name", sub.name))
+    # ownership across scopes: a graph output is produced inside that graph, and a node only uses values of its own
+    # graph or of an enclosing one
+    def _scopes(g, chain):
+        yield g, chain
+        for nd in g:
+            for a in nd.attributes.values():
+                if isinstance(a, ir.Attr) and not a.is_ref():
+                    if a.type == ir.AttributeType.GRAPH and a.value is not None:
+                        yield from _scopes(a.value, chain + [g])
+                    elif a.type == ir.AttributeType.GRAPHS:
+                        for sg in a.value:
+                            yield from _scopes(sg, chain + [g])
+
+    for root in [out_model.graph] + [f.graph for f in out_model.functions.values()]:
+        for g, chain in _scopes(root, []):
+            visible = {id(x) for x in chain} | {id(g)}
+            for v in g.outputs:
+                if v.producer() is not None and v.producer().graph is not g:
+                    c14.append(("graph_output_produced_outside_its_graph", f"{g.name}: {v.name}"))
+            for nd in g:
+                for v in nd.inputs:
+                    if v is None:
+                        continue
+                    owner = v.producer().graph if v.producer() is not None else v.graph
+                    if owner is not None and id(owner) not in visible:
+                        c14.append(("node_uses_a_value_of_a_scope_it_cannot_see", f"{nd.name} uses {v.name}"))
     if was_ordered and not _ordered(out_model.graph):
         c14.append(("ordered_graph_left_unordered", pass_name))
     # C05: semantics, interface, checker
